@@ -32,6 +32,7 @@ type simpleRun struct {
 	Metrics     *metrics.Metrics
 	Opts        func(*options.RunOptions)
 	Output      *ui.Output
+	Scenario    string // scenario name ("scn" when empty)
 }
 
 func (s simpleRun) trigger() (*api.Trigger, error) {
@@ -61,7 +62,11 @@ func (s simpleRun) do(ctx context.Context, fn f1testing.ScenarioFn) (*run.Result
 }
 
 func (s simpleRun) doTrigger(ctx context.Context, fn f1testing.ScenarioFn, trig *api.Trigger) (*run.Result, *metrics.Metrics, error) {
-	scn := scenarios.New().Add(&scenarios.Scenario{Name: "scn", ScenarioFn: fn})
+	name := s.Scenario
+	if name == "" {
+		name = "scn"
+	}
+	scn := scenarios.New().Add(&scenarios.Scenario{Name: name, ScenarioFn: fn})
 	m := s.Metrics
 	if m == nil {
 		m = metrics.NewInstance(prometheus.NewRegistry(), true, nil)
@@ -75,7 +80,7 @@ func (s simpleRun) doTrigger(ctx context.Context, fn f1testing.ScenarioFn, trig 
 	if s.Concurrency == 0 {
 		s.Concurrency = 1
 	}
-	o := options.RunOptions{Scenario: "scn", MaxDuration: s.MaxDuration, Concurrency: s.Concurrency,
+	o := options.RunOptions{Scenario: name, MaxDuration: s.MaxDuration, Concurrency: s.Concurrency,
 		MaxIterations: s.MaxIter, Verbose: true}
 	if s.Opts != nil {
 		s.Opts(&o)
